@@ -285,10 +285,35 @@ func (w *world) views() string {
 }
 
 func (w *world) spelling(r *vh.Rng, k int) string {
+	// one random draw per call, whatever the SKI looks like (the certificates, hence the SKIs,
+	// are fresh in every run; the case stream must depend on the seed only)
+	style := r.Intn(4)
 	if k >= c10NSki {
 		return w.skis[k]
 	}
-	s, _ := reformat(r, w.skis[k])
+	s := w.skis[k]
+	switch style {
+	case 1:
+		return strings.ToUpper(s)
+	case 2:
+		var sb strings.Builder
+		for i := 0; i < len(s); i += 2 {
+			if i > 0 {
+				sb.WriteByte('-')
+			}
+			sb.WriteString(strings.ToUpper(s[i : i+2]))
+		}
+		return sb.String()
+	case 3:
+		var sb strings.Builder
+		for i := 0; i < len(s); i += 4 {
+			if i > 0 {
+				sb.WriteByte(' ')
+			}
+			sb.WriteString(s[i : i+4])
+		}
+		return sb.String()
+	}
 	return s
 }
 
